@@ -662,7 +662,7 @@ func TestC17(t *testing.T) {
 	rec.Flush()
 	total := 6000 / cfg.NShards
 	if cfg.Thorough() {
-		total = 60000 / cfg.NShards
+		total = 600000 / cfg.NShards
 	}
 	allKinds := append(append([]string{}, base...), sized...)
 	rapidLoop(t, rec, "random", total, 100, dl, func(rt *rapid.T) *failure {
